@@ -19,7 +19,7 @@ Definition is_alpha (c : Z) : bool := is_upper c || is_lower c.
 Definition is_alnum (c : Z) : bool := is_alpha c || is_digit c.
 Definition in_set (s : list Z) (c : Z) : bool := existsb (Z.eqb c) s.
 (** ["-._~!$'()*+,;:@%"] *)
-Definition qchar_extra : list Z := [45; 46; 95; 126; 33; 36; 39; 40; 41; 42; 43; 44; 59; 58; 64; 37].
+Definition qchar_extra : list Z := QCHARS_ALLOWED.
 Definition is_qchar (c : Z) : bool := is_alnum c || in_set qchar_extra c.
 (** ["+-"] *)
 Definition is_namechar (c : Z) : bool := is_alnum c || in_set [43; 45] c.
@@ -574,7 +574,7 @@ Section WithAddresses.
       let r := enumerate_from 0 ps in
       if is_nil r then Ok r
       else match from_uri (to_uri r) with
-           | Ok r' => if REQUEST_NEW_COMPARES then (if request_eqb r' r then Ok r else Err EParse) else Ok r
+           | Ok r' => if request_eqb r' r then Ok r else Err EParse
            | Err e => Err e
            | Panic => Panic
            end.
